@@ -143,3 +143,63 @@ func VerifH_ServerCloseAfterBadMetadata() {
 	vrt.Assert(vrt.Unfinished() == 0, "no library goroutine is left behind")
 	vrt.Cover("server-close-end")
 }
+
+
+// VerifH_CloseAfterTermination: the manager has already begun terminating for another
+// reason (the peer went away, an active stream was hard-cancelled, a write failed) and the
+// goroutine doing so is still inside the transport's Close when the application calls
+// Manager.Close. Close must not return before the transport has let go (its Close
+// returned and no library goroutine is inside a transport call), reports the transport's
+// close error, the transport is closed exactly once and nothing is left behind.
+func VerifH_CloseAfterTermination() {
+	tr := &hx.Transport{}
+	release := false
+	tr.CloseGate = &release
+	if vrt.Bool("closeFails") {
+		tr.CloseErr = &hx.Err{S: "close failed"}
+	}
+	m := NewWithOptions(tr, Options{SoftCancel: vrt.Bool("soft")})
+	ctx := hx.NewCtx()
+	stream, err := m.NewClientStream(ctx, "rpc")
+	vrt.Assert(err == nil, "NewClientStream succeeds")
+	cause := vrt.Choice("cause", 3)
+	switch cause {
+	case 0: // the peer goes away: the reader sees EOF and terminates the manager
+		tr.EOF = true
+		tr.CanRead = true
+	case 1: // the stream's context is cancelled (hard cancel terminates the manager)
+		ctx.Cancel(context.Canceled)
+	case 2: // the reader sees a transport fault
+		tr.FaultRead = 1
+		tr.CanRead = true
+	}
+	vrt.Quiesce()
+	terminating := tr.InClose
+	vrt.Tag("manager-terminating-in-transport-close", terminating)
+	var closeErr error
+	closeDone := false
+	inIOAtReturn := false
+	closeRetAtReturn := false
+	go func() {
+		closeErr = m.Close()
+		inIOAtReturn = tr.InRead || tr.InWrite || tr.InClose
+		closeRetAtReturn = tr.CloseRet
+		closeDone = true
+	}()
+	vrt.Quiesce()
+	if terminating {
+		vrt.Assert(!closeDone, "Close does not return while the transport's Close is still in progress")
+		vrt.Cover("close-waits-for-transport")
+	}
+	release = true
+	vrt.Quiesce()
+	vrt.Assert(closeDone, "Close returns once the transport lets go")
+	vrt.Assert(closeRetAtReturn && !inIOAtReturn, "Close returns only after the transport's Close returned and no library goroutine is inside a transport call")
+	vrt.Assert(closeErr == tr.CloseErr, "Close reports the transport's close error")
+	vrt.Assert(tr.Closes == 1, "the transport is closed exactly once")
+	vrt.Assert(hx.IsClosedCh(stream.Context().Done()), "the active stream's context is cancelled")
+	_, err = m.NewClientStream(hx.NewCtx(), "later")
+	vrt.Assert(err != nil, "later NewClientStream fails")
+	vrt.Assert(vrt.Unfinished() == 0, "no library goroutine is left behind")
+	vrt.Cover("close-after-term-end")
+}
